@@ -13,13 +13,14 @@ import (
 
 // SVal is a typed value of the specification language.
 type SVal struct {
-	T   *Term
-	Go  types.Type // nil for untyped constants
-	CI  *big.Int   // untyped integer constant
-	CR  *big.Rat   // untyped float constant
-	Nil bool
-	Pkg string // identifier naming a package (pkg path)
-	Str *string
+	T    *Term
+	Go   types.Type // nil for untyped constants
+	CI   *big.Int   // untyped integer constant
+	CR   *big.Rat   // untyped float constant
+	Nil  bool
+	Pkg  string // identifier naming a package (pkg path)
+	Str  *string
+	Addr *Addr // pointer value known only as a symbolic interior address (&s[i], &p.f)
 }
 
 type specErr string
@@ -201,6 +202,14 @@ func (env *SEnv) tr(e *SExpr) *SVal {
 		return env.binary(e)
 	case ECond:
 		c := env.materialize(env.tr(e.X), nil)
+		if cv, ok := groundBool(c.T); ok {
+			// the condition is decided: only the chosen branch is translated (this is what lets recursive
+			// spec functions be evaluated on literal arguments)
+			if cv {
+				return env.tr(e.Y)
+			}
+			return env.tr(e.Z)
+		}
 		a, b := env.tr(e.Y), env.tr(e.Z)
 		a, b = env.unify(a, b)
 		return &SVal{T: Ite(c.T, a.T, b.T), Go: a.Go}
@@ -349,6 +358,26 @@ func (env *SEnv) selectExpr(e *SExpr) *SVal {
 		}
 		return env.pkgObject(obj)
 	}
+	if x.Addr != nil && x.T == nil {
+		p, ok := x.Go.Underlying().(*types.Pointer)
+		if !ok {
+			sfail("selector on interior address of non-pointer type")
+		}
+		st, ok := p.Elem().Underlying().(*types.Struct)
+		if !ok {
+			sfail("selector on pointer to non-struct %v", x.Go)
+		}
+		for i := 0; i < st.NumFields(); i++ {
+			if st.Field(i).Name() == e.Op {
+				na := *x.Addr
+				na.Nil = nil
+				na.Path = append(append([]Proj{}, x.Addr.Path...), Proj{Field: i})
+				na.Typ = st.Field(i).Type()
+				return &SVal{T: vc.load(env.cur, &na), Go: st.Field(i).Type()}
+			}
+		}
+		sfail("no field %s in %v", e.Op, p.Elem())
+	}
 	x = env.materialize(x, nil)
 	t := x.Go
 	if p, ok := t.Underlying().(*types.Pointer); ok {
@@ -447,6 +476,20 @@ func (env *SEnv) binary(e *SExpr) *SVal {
 		}
 	}
 	a, b := env.tr(e.X), env.tr(e.Y)
+	if (e.Op == "==" || e.Op == "!=") && (a.Addr != nil && a.T == nil && b.Nil || b.Addr != nil && b.T == nil && a.Nil) {
+		ad := a.Addr
+		if ad == nil {
+			ad = b.Addr
+		}
+		eq := TFalse
+		if ad.Nil != nil {
+			eq = ad.Nil
+		}
+		if e.Op == "!=" {
+			eq = Not(eq)
+		}
+		return &SVal{T: eq, Go: tb}
+	}
 	// constant folding on untyped ints
 	if a.CI != nil && b.CI != nil {
 		r := new(big.Int)
@@ -628,15 +671,36 @@ func (env *SEnv) call(e *SExpr) *SVal {
 		sfail("spec function %s expects %d arguments, got %d", name, len(sf.Params), len(args))
 	}
 	avs := make([]*SVal, len(args))
+	hasAddr := false
 	for i, a := range args {
-		v := env.materialize(env.tr(a), sf.Params[i].Type)
+		v := env.tr(a)
+		if v.Addr != nil && v.T == nil {
+			avs[i] = &SVal{Addr: v.Addr, Go: sf.Params[i].Type}
+			hasAddr = true
+			continue
+		}
+		v = env.materialize(v, sf.Params[i].Type)
 		v = env.coerce(v, sf.Params[i].Type, fmt.Sprintf("argument %d of %s", i+1, name))
 		avs[i] = v
 	}
-	if sf.Body == nil || sf.Recursive {
+	if hasAddr && (sf.Body == nil || sf.Recursive) {
+		sfail("interior pointer passed to the abstract/recursive spec function %s", name)
+	}
+	allLit := sf.Body != nil && !hasAddr
+	for i, a := range avs {
+		if a.T == nil {
+			continue
+		}
+		a.T = foldInt(a.T)
+		avs[i] = a
+		if _, ok := intLitVal(a.T); !ok {
+			allLit = false
+		}
+	}
+	if sf.Body == nil || (sf.Recursive && !(allLit && env.depth < 400)) {
 		return env.callUF(sf, avs)
 	}
-	if env.depth > 60 {
+	if env.depth > 60 && !sf.Recursive {
 		sfail("spec function expansion too deep at %s", name)
 	}
 	ne := env.child()
@@ -831,6 +895,25 @@ func (env *SEnv) builtin(name string, args []*SExpr, e *SExpr) *SVal {
 			sfail("%v", err)
 		}
 		return &SVal{T: vc.tagMatches(vc.ifTag(x.T), T), Go: tb}
+	case "hamming":
+		// hamming(a, b, n): number of positions k < n in which the binary representations of a and b differ
+		need(3)
+		a := env.materialize(env.tr(args[0]), types.Typ[types.Int])
+		b := env.materialize(env.tr(args[1]), types.Typ[types.Int])
+		nv := env.tr(args[2])
+		if nv.CI == nil || nv.CI.Int64() < 1 || nv.CI.Int64() > 64 {
+			sfail("hamming needs a literal bit count 1..64")
+		}
+		if vc.isBV() {
+			sfail("hamming is an int-mode builtin")
+		}
+		var sum *Term = IntLit64(0)
+		for k := 0; k < int(nv.CI.Int64()); k++ {
+			ba := App("mod", SInt, App("div", SInt, a.T, IntLit(pow2(k))), IntLit64(2))
+			bb := App("mod", SInt, App("div", SInt, b.T, IntLit(pow2(k))), IntLit64(2))
+			sum = App("+", SInt, sum, Ite(Eq(ba, bb), IntLit64(0), IntLit64(1)))
+		}
+		return &SVal{T: foldInt(sum), Go: types.Typ[types.Int]}
 	case "lowmask32":
 		need(1)
 		x := env.materialize(env.tr(args[0]), types.Typ[types.Uint])
